@@ -1,2 +1,206 @@
--- stub: driver for C02 not written yet
-def main : IO Unit := pure ()
+import CMacVerif.Model.RayMarch
+import CMacVerif.Util.Bits
+import CMacVerif.Inst.Float
+/-!
+Line-protocol driver for C02 (the same `RayMarch.interact` the theorems are about).
+
+  blk  ax ay az sx sy sz nx ny nz        block: anchor, side lengths (doubles as bit patterns), cells
+  cells m mul add (n xH xHe){m}           cell c holds palette entry ((c*mul+add) mod m)
+  pkt  px py pz dx dy dz tau sH sHe sX w nu inDir id ex   (id: serial number, ex: exactness flag; both ignored)
+
+Default mode: `Float` instantiation, answers compared with the C++ harness.
+Mode `rat` (first command line argument): the exact `Rat` instantiation on the exact values of
+the same doubles; reports the discrete outcome, whether a comparison was a near tie (two wall
+distances / the optical depth test / the start index within 4 ulp), and evaluates the
+statements of the C02 theorems exactly on this instance.
+-/
+open CMacVerif CMacVerif.Util CMacVerif.RayMarch
+
+structure DSt (α : Type) where
+  blk : Block α
+  pal : Array (Cell α)
+  mul : Nat
+  add : Nat
+
+def cellsOf {α : Type} (dflt : Cell α) (s : DSt α) : Nat → Cell α := fun c =>
+  if s.pal.size == 0 then dflt else s.pal.getD ((c * s.mul + s.add) % s.pal.size) dflt
+
+def v3 {β : Type} (a b c : β) : V3 β := ⟨a, b, c⟩
+
+def parsePalette {α : Type} (conv : Nat → α) : List String → Array (Cell α) → Array (Cell α)
+  | n :: x :: y :: rest, acc => parsePalette conv rest (acc.push ⟨conv (nat! n), conv (nat! x), conv (nat! y)⟩)
+  | _, acc => acc
+
+def parsePhoton {α : Type} (conv : Nat → α) (w : List Nat) : Option (Photon α × Nat) :=
+  match w with
+  | [px, py, pz, dx, dy, dz, tau, sH, sHe, sX, wt, nu, inDir, _id, _ex] =>
+    some ({ pos := v3 (conv px) (conv py) (conv pz), dir := v3 (conv dx) (conv dy) (conv dz),
+            tau := conv tau, sigH := conv sH, sigHe := conv sHe, sigX := conv sX, w := conv wt,
+            nu := conv nu }, inDir)
+  | _ => none
+
+/-! ### Float mode -/
+
+def fZeroCell : Cell Float := ⟨0.0, 0.0, 0.0⟩
+
+def showV (v : V3 Float) : String := s!"{showF v.x} {showF v.y} {showF v.z}"
+
+def showVisit (v : Visit Float) : String :=
+  s!" v {v.cell} {showF v.path} {showF v.jH} {showF v.jHe} {showF v.jX} {showF v.hH} {showF v.hHe}"
+
+/-- branch tags of one packet: recomputed by walking the same `geo`/`step` stages -/
+def tagsF (b : Block Float) (cells : Nat → Cell Float) (ph : Photon Float) (inDir : Nat)
+    (r : Result Float) : List String :=
+  let kinds := [idxKind inDir .x, idxKind inDir .y, idxKind inDir .z]
+  let npin := (kinds.filter (· != 0)).length
+  let entry := match npin with | 0 => "in-inside" | 1 => "in-face" | 2 => "in-edge" | _ => "in-corner"
+  let nstatic := ([ph.dir.x, ph.dir.y, ph.dir.z].filter (· == 0.0)).length
+  let stat := s!"static{nstatic}"
+  let neg := if ph.dir.x < 0.0 || ph.dir.y < 0.0 || ph.dir.z < 0.0 then ["dir-neg"] else []
+  let pos := if 0.0 < ph.dir.x || 0.0 < ph.dir.y || 0.0 < ph.dir.z then ["dir-pos"] else []
+  let exit :=
+    if r.outDir == 0 then "out-inside" else if r.outDir < 0 then "out-invalid"
+    else if r.outDir ≤ 8 then "out-corner" else if r.outDir ≤ 20 then "out-edge" else "out-face"
+  let nv := if r.visits.isEmpty then ["no-visit"] else []
+  let zero := if r.visits.any (fun v => v.path == 0.0) then ["zero-path"] else []
+  -- walk the steps again for the per-step branches
+  let rec walk (f : Nat) (s : St Float) (acc : List String) : List String :=
+    match f with
+    | 0 => acc
+    | f + 1 =>
+      if s.tauDone < ph.tau && inside b.n s.idx then
+        let g := geo b cells ph s
+        let nb := ([Ax.x, Ax.y, Ax.z].filter (fun a => g.l.get a == g.lmin)).length
+        let t :=
+          if ph.tau ≤ g.td then
+            (if g.td == ph.tau then "stop-exact" else "stop-surplus")
+          else s!"leave{nb}"
+        let t2 := if g.tau == 0.0 then ["tau0"] else []
+        walk f (step b cells ph s) (if acc.contains t then t2 ++ acc else t :: t2 ++ acc)
+      else acc
+  let steps := walk (fuel b.n) (initSt b ph inDir) []
+  ([entry, stat, exit] ++ neg ++ pos ++ nv ++ zero ++ steps).eraseDups
+
+def stepF (s : DSt Float) : List String → DSt Float × String
+  | "blk" :: rest =>
+    match rest.map nat! with
+    | [ax, ay, az, sx, sy, sz, nx, ny, nz] =>
+      let b : Block Float := mkBlock (v3 (fOfBits ax) (fOfBits ay) (fOfBits az))
+        (v3 (fOfBits sx) (fOfBits sy) (fOfBits sz)) (v3 nx ny nz)
+      ({ s with blk := b }, s!"blk cs={showV b.cs} inv={showV b.inv}")
+    | _ => (s, "bad-op")
+  | "cells" :: m :: mul :: add :: rest =>
+    let pal := parsePalette fOfBits rest #[]
+    if pal.size != nat! m then (s, "bad-op") else
+    ({ s with pal := pal, mul := nat! mul, add := nat! add }, s!"cells {pal.size}")
+  | "pkt" :: rest =>
+    match parsePhoton fOfBits (rest.map nat!) with
+    | some (ph, inDir) =>
+      let cells := cellsOf fZeroCell s
+      let r := interact s.blk cells ph inDir
+      let vs := String.join (r.visits.map showVisit)
+      let tags := ",".intercalate (tagsF s.blk cells ph inDir r)
+      (s, s!"pkt out={r.outDir} fin={if r.finished then 1 else 0} pos={showV r.pos} tau={showF r.tauLeft} nv={r.visits.length}{vs} #{tags}")
+    | none => (s, "bad-op")
+  | _ => (s, "bad-op")
+
+/-! ### exact mode -/
+
+def qOfBits (n : Nat) : Rat := (ratOfBits n).getD 0
+
+def ratToFloat (q : Rat) : Float :=
+  let n := q.num.natAbs
+  let d := q.den
+  let sh := (max n.log2 d.log2) - 900
+  let n' := n >>> sh
+  let d' := d >>> sh
+  let v := if d' == 0 then 0.0 / 0.0 else n'.toFloat / d'.toFloat
+  if q.num < 0 then -v else v
+
+def qZeroCell : Cell Rat := ⟨0, 0, 0⟩
+def qabs (q : Rat) : Rat := if q < 0 then -q else q
+/-- 4 ulp as a relative distance -/
+def ulp4 : Rat := mkRat 4 (2 ^ 52)
+/-- equal in exact arithmetic, or within 4 ulp: rounding may decide such a comparison either way -/
+def near (a b : Rat) : Bool := decide (qabs (a - b) ≤ ulp4 * (if qabs a < qabs b then qabs b else qabs a))
+
+def kappa (c : Cell Rat) (ph : Photon Rat) : Rat := c.n * (ph.sigH * c.xH + ph.sigHe * c.xHe)
+
+/-- near ties along the exact run -/
+def tiesQ (b : Block Rat) (cells : Nat → Cell Rat) (ph : Photon Rat) (inDir : Nat) : Bool :=
+  let s0 := initSt b ph inDir
+  let startTie := [Ax.x, Ax.y, Ax.z].any fun a =>
+    idxKind inDir a == 0 &&
+      (let x := s0.pos.get a * b.inv.get a
+       (List.range (b.n.get a + 2)).any fun k => near x (k : Rat))
+  let rec walk (f : Nat) (s : St Rat) : Bool :=
+    match f with
+    | 0 => false
+    | f + 1 =>
+      if s.tauDone < ph.tau && inside b.n s.idx then
+        let g := geo b cells ph s
+        let mv := fun a => ph.dir.get a != 0
+        let pr := fun a c => mv a && mv c && near (g.l.get a) (g.l.get c)
+        let t := pr .x .y || pr .x .z || pr .y .z || near g.td ph.tau
+        t || walk f (step b cells ph s)
+      else false
+  startTie || walk (fuel b.n) s0
+
+/-- the statements of the C02 theorems evaluated exactly on this instance -/
+def exactChecks (b : Block Rat) (cells : Nat → Cell Rat) (ph : Photon Rat) (inDir : Nat)
+    (r : Result Rat) : List String :=
+  let s0 := initSt b ph inDir
+  let S := r.visits.foldl (fun acc v => acc + v.path) 0
+  let T := r.visits.foldl (fun acc v => acc + kappa (cells v.cell.toNat) ph * v.path) 0
+  let axes := [Ax.x, Ax.y, Ax.z]
+  let c1 := if r.finished then [] else ["fuel"]
+  let c2 := if axes.all (fun a => r.last.pos.get a == s0.pos.get a + S * ph.dir.get a) then [] else ["path_sum"]
+  let c3 := if r.visits.all (fun v => decide (0 ≤ v.path)) then [] else ["path_nonneg"]
+  let c4 :=
+    if r.outDir == 0 then (if T == ph.tau && decide (r.tauLeft ≤ 0) then [] else ["tau_inside"])
+    else (if r.tauLeft == ph.tau - T && decide (0 < r.tauLeft) then [] else ["tau_leave"])
+  let c5 := if r.visits.all (fun v => v.jH == ph.w * ph.sigH * v.path && v.jHe == ph.w * ph.sigHe * v.path
+      && v.hH == ph.w * ph.sigH * v.path * (ph.nu - 3288000000000000)
+      && v.hHe == ph.w * ph.sigHe * v.path * (ph.nu - 5948000000000000)) then [] else ["estimators"]
+  let c6 :=
+    if r.outDir == 0 then []
+    else if axes.all (fun a =>
+      let i := r.last.idx.get a
+      let p := r.last.pos.get a
+      let d := ph.dir.get a
+      if i < 0 then p == 0 && decide (d < 0)
+      else if i ≥ (b.n.get a : Int) then p == top b a && decide (0 < d)
+      else decide (0 ≤ p) && decide (p ≤ top b a) && (decide (d ≤ 0) || decide (p < top b a)) && (decide (0 ≤ d) || decide (0 < p)))
+    then [] else ["exit_geometric"]
+  c1 ++ c2 ++ c3 ++ c4 ++ c5 ++ c6
+
+def stepQ (s : DSt Rat) : List String → DSt Rat × String
+  | "blk" :: rest =>
+    match rest.map nat! with
+    | [ax, ay, az, sx, sy, sz, nx, ny, nz] =>
+      let b : Block Rat := mkBlock (v3 (qOfBits ax) (qOfBits ay) (qOfBits az))
+        (v3 (qOfBits sx) (qOfBits sy) (qOfBits sz)) (v3 nx ny nz)
+      ({ s with blk := b }, "blk")
+    | _ => (s, "bad-op")
+  | "cells" :: m :: mul :: add :: rest =>
+    let pal := parsePalette qOfBits rest #[]
+    if pal.size != nat! m then (s, "bad-op") else
+    ({ s with pal := pal, mul := nat! mul, add := nat! add }, s!"cells {pal.size}")
+  | "pkt" :: rest =>
+    match parsePhoton qOfBits (rest.map nat!) with
+    | some (ph, inDir) =>
+      let cells := cellsOf qZeroCell s
+      let r := interact s.blk cells ph inDir
+      let tie := tiesQ s.blk cells ph inDir
+      let bad := exactChecks s.blk cells ph inDir r
+      let vs := String.join (r.visits.map fun v => s!" v {v.cell} {showF (ratToFloat v.path)}")
+      let pos := s!"{showF (ratToFloat r.pos.x)} {showF (ratToFloat r.pos.y)} {showF (ratToFloat r.pos.z)}"
+      (s, s!"pkt out={r.outDir} fin={if r.finished then 1 else 0} pos={pos} tau={showF (ratToFloat r.tauLeft)} nv={r.visits.length}{vs} tie={if tie then 1 else 0} exact={if bad.isEmpty then "ok" else ",".intercalate bad}")
+    | none => (s, "bad-op")
+  | _ => (s, "bad-op")
+
+def main (args : List String) : IO Unit :=
+  if args.contains "rat" then
+    runDriver stepQ ({ blk := mkBlock (v3 0 0 0) (v3 1 1 1) (v3 1 1 1), pal := #[], mul := 0, add := 0 } : DSt Rat)
+  else
+    runDriver stepF ({ blk := mkBlock (v3 0.0 0.0 0.0) (v3 1.0 1.0 1.0) (v3 1 1 1), pal := #[], mul := 0, add := 0 } : DSt Float)
